@@ -13,6 +13,7 @@ EXPLANATION = (
     "re-weighted graph is not silently reset); the CPEdge is read back from 'object'; the critical event set is derived from every node of the path; the edge set is "
     "reset after the path is recomputed and before it is accumulated from consecutive node pairs; validation dominates the computation. NOT decided: optimality "
     "itself (delegated to networkx.dag_longest_path - trusted base) and the makespan bound."
+    " Later additions: unrestricted topological order, unconditional collection of the edge of every consecutive pair, effect rules, stateless wrapper."
 )
 CP = "hta.analyzers.critical_path_analysis"
 
